@@ -29,13 +29,24 @@ func (P *projPoint) initXY(x, y *compatible.Int, c kyber.Group) {
 }
 
 func (P *projPoint) getXY() (x, y *mod.Int) {
-	P.normalize()
-	return &P.X, &P.Y
+	return P.affine()
+}
+
+// affine returns the affine coordinates of the point without modifying it,
+// so that encoding, printing or extracting data from a point that is shared
+// between goroutines is not a data race.
+func (P *projPoint) affine() (x, y *mod.Int) {
+	var zinv mod.Int
+	x, y = new(mod.Int), new(mod.Int)
+	zinv.Inv(&P.Z)
+	x.Mul(&P.X, &zinv)
+	y.Mul(&P.Y, &zinv)
+	return x, y
 }
 
 func (P *projPoint) String() string {
-	P.normalize()
-	return P.c.pointString(&P.X, &P.Y)
+	x, y := P.affine()
+	return P.c.pointString(x, y)
 }
 
 func (P *projPoint) MarshalSize() int {
@@ -43,8 +54,8 @@ func (P *projPoint) MarshalSize() int {
 }
 
 func (P *projPoint) MarshalBinary() ([]byte, error) {
-	P.normalize()
-	return P.c.encodePoint(&P.X, &P.Y), nil
+	x, y := P.affine()
+	return P.c.encodePoint(x, y), nil
 }
 
 func (P *projPoint) UnmarshalBinary(b []byte) error {
@@ -106,14 +117,6 @@ func (P *projPoint) EmbedLen() int {
 	return P.c.embedLen()
 }
 
-// Normalize the point's representation to Z=1.
-func (P *projPoint) normalize() {
-	P.Z.Inv(&P.Z)
-	P.X.Mul(&P.X, &P.Z)
-	P.Y.Mul(&P.Y, &P.Z)
-	P.Z.V.SetInt64(1)
-}
-
 func (P *projPoint) Embed(data []byte, rand cipher.Stream) kyber.Point {
 	P.c.embed(P, data, rand)
 	return P
@@ -125,8 +128,8 @@ func (P *projPoint) Pick(rand cipher.Stream) kyber.Point {
 
 // Extract embedded data from a point group element
 func (P *projPoint) Data() ([]byte, error) {
-	P.normalize()
-	return P.c.data(&P.X, &P.Y)
+	x, y := P.affine()
+	return P.c.data(x, y)
 }
 
 // Add two points using optimized projective coordinate addition formulas.
